@@ -1,7 +1,7 @@
 PROP_ID = "C12"
 PROP = dict(
     imports=["Client.Store", "Client.Readers", "Corr.Run_C12"],
-    case_type="Run_C12.case", check="Run_C12.check", shrink_field="ops", race=True, max_reports=2,
+    case_type="Run_C12.case", check="Run_C12.check", shrink_field="ops", shrink=False, race=True, max_reports=2,
     harness_timeout={"quick": 170, "thorough": 10000},
     technique=("Rocq proof over the shared store model (interleaving semantics whose atomic steps are store.go's locked steps, requests split into begin/end; invariants over all event sequences; "
                "a decidable monitor proved sound) + REAL goroutines under the race detector, each scenario in its own process; the kernel evaluates the monitor on the recorded install order and read logs"),
